@@ -83,7 +83,8 @@ DLINES = [
     "#define A", "#define A A", "#define A 1", "#define A (", "#define B A",
     "#define F(x) x", "#define F(x) #x", "#define F(x) x##x", "#define F(x,...) x __VA_ARGS__",
     "#define F(...) __VA_OPT__(a) #__VA_ARGS__", "#define F(x) F(x)", "#define F(x) A",
-    "#define F(", "#define F(x", "#define F(x,", "#define F() __VA_OPT__(", "#define", "#define (", "#define F(x) #",
+    "#define F(", "#define F(x", "#define F(x,", "#define F() __VA_OPT__(", "#define", "#define (", "#define (x)",
+    "#define F(..) x", "#define F(x) #",
     "#define F(x) ##", "#define F(x) x ## ",
     "#undef A", "#undef F", "#undef",
     "#ifdef A", "#ifndef A", "#if A", "#if F(1)", "#if F(", "#if defined(A)", "#if defined A",
@@ -369,7 +370,7 @@ def cmd_files():
 # ------------------------------------------------------------------ -D definitions (v)
 DEF_HEADER = (b"#ifdef A\nint a_defined = A;\n#endif\n#ifdef F\nint f1 = F(1);\nint f2 = F(1, 2);\nint f0 = F();\n"
               b"int fn = F;\n#endif\n#if defined(A) && A\nint a_true;\n#endif\nint tail;\n")
-DEF_NAMES = ["A", "F(x)", "F(x,y)", "F(...)", "F(x,...)", "F()", "F(", "F(x", "F(x,", "F(x)(", "", "(", ")", "1",
+DEF_NAMES = ["A", "F(x)", "F(x,y)", "F(...)", "F(x,...)", "F()", "F(", "F(x", "F(x,", "F(x)(", "", "(", "(x", "(x)", ")", "1",
              "A B", " A", "A ", "=", "F(x...)", "__LINE__", "defined"]
 DEF_BODIES = ["", "1", "A", "x", "#x", "x##y", "##", "#", "__VA_ARGS__", "__VA_OPT__(x)", "__VA_OPT__(",
               "(", ")", "\"", "'", "/*", "\\", "F(x)", "F(1)", "1/0", "=", " ", "\n", "x y", "\x80"]
